@@ -325,8 +325,8 @@ def install_expint_stub():
     symrun.SHIM_LOG.append("gstools.tools.special.exp_int -> contract E(s,x) (uninterpreted) for symbolic arguments")
 
 
-def model_args(ctx, cls, dim):
-    ob, mdim = opt_info(cls, dim, False, False)
+def model_args(ctx, cls, dim, latlon=False, temporal=False):
+    ob, mdim = opt_info(cls, dim, latlon, temporal)
     v, l, n, s = (ctx.real("var", pos=True), ctx.real("len", pos=True), ctx.real("nug", nonneg=True),
                   ctx.real("resc", pos=True))
     ctx.require(ctx.And(ctx.gt(v, 0), ctx.gt(l, 0), ctx.ge(n, 0), ctx.gt(s, 0)))
@@ -371,6 +371,31 @@ def closed_form(ctx, cls, dim):
     ctx.ensure("variogram=var*(1-rho)+nugget", ctx.eq(mod.variogram(r), v * (1 - rho) + n))
     ctx.ensure("covariance=var*rho", ctx.eq(mod.covariance(r), v * rho))
     ctx.ensure("cor(h)=rho(h)", ctx.eq(mod.cor(x), rho))
+
+
+GEO_CFG = {"latlon": dict(latlon=True), "latlon+time": dict(latlon=True, temporal=True),
+           "2d+time": dict(spatial_dim=2, temporal=True)}
+
+
+@contract(P, "models.cor/documented-closed-form[geographic-and-temporal-models]",
+          params=[{"cls": c, "cfg": g} for c in ("HyperSpherical", "SuperSpherical", "JBessel", "TPLSimple") for g in GEO_CFG],
+          functions=["covmodel/models.py:<cls>.cor", "covmodel/tpl_models.py:TPLSimple.cor"], timeout=60)
+def closed_form_geo(ctx, cls, cfg):
+    """the closed forms with a dimension parameter d use the MODEL dimension `dim`: 3 for lat-lon models
+    (the covariance acts on chordal distances in R^3; positive definiteness on the sphere needs d = 3), one
+    more with a time axis -- not the number of coordinates the user passes (`field_dim`)"""
+    kw = GEO_CFG[cfg]
+    dim_arg = 3 if cfg == "2d+time" else 2          # `dim` counts the time axis for non-geographic models
+    v, l, n, s, opt = model_args(ctx, cls, dim_arg, latlon=kw.get("latlon", False), temporal=kw.get("temporal", False))
+    mod = _quiet(getattr(gs, cls), var=v, len_scale=l, nugget=n, rescale=s, **kw, **opt)
+    want_dim = {"latlon": 3, "latlon+time": 4, "2d+time": 3}[cfg]
+    ctx.ensure("model-dimension", mod.dim == want_dim)
+    r = ctx.real("r", nonneg=True)
+    ctx.require(ctx.ge(r, 0))
+    x = s * r / l
+    rho = RHO[cls](ctx, x, opt, want_dim)
+    ctx.ensure("correlation=rho_d(s*r/l),d=model-dimension", ctx.eq(mod.correlation(r), rho))
+    ctx.ensure("cor(h)=rho_d(h)", ctx.eq(mod.cor(x), rho))
 
 
 @contract(P, "models.cor/documented-closed-form[thorough]",
